@@ -63,6 +63,55 @@ theorem exHolds : Env.HoldsProblem exP Cov.runExMat Cov.runExCov [] where
   cols := rfl
   rhs := rfl
   dense := exDense
+  entries := by
+    intro i hi
+    have hi' : i < 3 := hi
+    have hi2 : i = 0 ∨ i = 1 ∨ i = 2 := by omega
+    rcases hi2 with rfl | rfl | rfl <;> rfl
+
+theorem exRowsOK : RowsOK exP := by
+  intro i hi
+  have hi' : i < 3 := hi
+  have hi2 : i = 0 ∨ i = 1 ∨ i = 2 := by omega
+  rcases hi2 with rfl | rfl | rfl <;> simp [exP]
+
+/-- both blocks of the example are accepted at the default tolerance `1e-14` (they are at `1/100`: `Cov.exBd_accepts`) -/
+theorem exRun_accepted : ∃ out, @Cov.Hom.run ℝ (Cov.fieldScalar ℝ Real.sqrt) (Env.bdTol : ℝ) Cov.runExMat Cov.runExCov
+    exP.rhs = .ok out := by
+  let _ : Cov.SqrtFn ℝ := ⟨Real.sqrt⟩
+  have hsq : ∀ x : ℝ, 0 < x → Cov.SqrtFn.sq x * Cov.SqrtFn.sq x = x ∧ 0 < Cov.SqrtFn.sq x :=
+    fun x hx => ⟨Real.mul_self_sqrt hx.le, Real.sqrt_pos.mpr hx⟩
+  have hle : (Env.bdTol : ℝ) ≤ 1 / 100 := by
+    show (OfScientific.ofScientific 1 true 14 : ℝ) ≤ 1 / 100
+    norm_num
+  have h100 := (Cov.bd_ret_zero_iff (K := ℝ) hsq (1 / 100) (by norm_num) Cov.exBd Cov.exCs []
+    Cov.exBd_holds Cov.exCs_wf).mp Cov.exBd_accepts
+  have hacc0 : (Cov.exBd.cholDec (Env.bdTol : ℝ)).1 = 0 :=
+    (Cov.bd_ret_zero_iff (K := ℝ) hsq (Env.bdTol : ℝ) Env.bdTol_pos Cov.exBd Cov.exCs []
+      Cov.exBd_holds Cov.exCs_wf).mpr (fun k hk => by
+        obtain ⟨U, hU, hp⟩ := h100 k hk
+        exact ⟨U, hU, fun i h1 h2 => le_trans hle (hp i h1 h2)⟩)
+  have hacc : (Cov.bdCholDec (Env.bdTol : ℝ) Cov.exCs).1 = 0 := by
+    rw [← (Cov.BlockDiag.cholDec_blockwise (Env.bdTol : ℝ) Cov.exBd Cov.exCs [] Cov.exBd_holds Cov.exCs_wf).1]
+    exact hacc0
+  have h := Cov.Hom.run_spec (K := ℝ) hsq (Env.bdTol : ℝ) Env.bdTol_pos Cov.runExMat Cov.runExCov exP.rhs Cov.exCs []
+    Cov.runExCov_built Cov.exCs_wf Cov.runExMat_wf (by decide) (by decide) (by decide)
+  rcases hrun : @Cov.Hom.run ℝ (Cov.fieldScalar ℝ Real.sqrt) (Env.bdTol : ℝ) Cov.runExMat Cov.runExCov exP.rhs
+    with e | out
+  · exact absurd hacc (h.1.1 ⟨e, hrun⟩)
+  · exact ⟨out, rfl⟩
+
+/-- … hence `envSolve` answers on the example too (`C16_hom_run_eq_env_homogenize` (1), `envSolve_error_iff`) -/
+theorem exEnvSolve_accepted : ∃ a, envSolve exP = .ok a := by
+  obtain ⟨out, hout⟩ := exRun_accepted
+  have h1 := (hom_run_eq_homogenize (K := ℝ) ⟨fun _ h => Real.mul_self_sqrt h, fun x _ => Real.sqrt_nonneg x⟩
+    exP Cov.runExMat Cov.runExCov [] exHolds).1
+  match hr : envSolve exP with
+  | .ok a => exact ⟨a, rfl⟩
+  | .error e =>
+    obtain ⟨e', he'⟩ := h1.2 ((envSolve_error_iff exP).1 ⟨e, hr⟩)
+    rw [hout] at he'
+    cases he'
 
 end
 end Gama.Ls
